@@ -2,6 +2,7 @@ package utils
 
 import (
 	"runtime"
+	"sync"
 	"time"
 )
 
@@ -10,9 +11,21 @@ type Timer struct {
 	sleep  time.Duration
 	fn     func()
 	stopCh chan struct{}
+
+	// orders Stop and Refresh against the goroutine that has taken a tick
+	mu        sync.Mutex
+	cancelled bool
 }
 
 func (t *Timer) Refresh() *Timer {
+	t.mu.Lock()
+	defer t.mu.Unlock()
+
+	if t.cancelled {
+		// a cancelled timer stays cancelled
+		return t
+	}
+
 	defer t.timer.Reset(t.sleep)
 
 	if !t.timer.Stop() {
@@ -44,7 +57,14 @@ func SetTimeout(fn func(), sleep time.Duration) *Timer {
 	timer.fn = func() {
 		select {
 		case <-timer.timer.C:
-			fn()
+			// a Stop that came too late to catch the tick has still returned
+			// before the callback starts
+			timer.mu.Lock()
+			cancelled := timer.cancelled
+			timer.mu.Unlock()
+			if !cancelled {
+				fn()
+			}
 		case <-timer.stopCh:
 			return
 		}
@@ -60,7 +80,14 @@ func ClearTimeout(timer *Timer) {
 }
 
 func (t *Timer) Stop() {
-	if t.timer.Stop() {
+	t.mu.Lock()
+	t.cancelled = true
+	pending := t.timer.Stop()
+	t.mu.Unlock()
+
+	// a pending tick means the goroutine is still waiting: wake it up; one that
+	// has taken its tick finds the flag
+	if pending {
 		t.stopCh <- struct{}{}
 	}
 }
@@ -75,7 +102,14 @@ func SetInterval(fn func(), sleep time.Duration) *Timer {
 		for {
 			select {
 			case <-timer.timer.C:
+				timer.mu.Lock()
+				if timer.cancelled {
+					// stopped between the tick and the re-arm
+					timer.mu.Unlock()
+					return
+				}
 				timer.timer.Reset(timer.sleep)
+				timer.mu.Unlock()
 				go fn()
 			case <-timer.stopCh:
 				return
